@@ -58,6 +58,26 @@ func (f *Frame) run(args []T, st State, path T) (results []T, outSt State, outPa
 		}
 		last := b.Instrs[len(b.Instrs)-1]
 		if ret, isRet := last.(*ssa.Return); isRet {
+			if f.top && f.trivialReturnBlock(b) && len(b.Preds) > 1 {
+				// one return record per incoming edge: the postcondition is proved per path,
+				// without the merged (ite) state of the join
+				for i, p := range b.Preds {
+					ep, ok := f.edgePred[[2]int{p.Index, b.Index}]
+					if !ok {
+						continue
+					}
+					var rs []T
+					for _, r := range ret.Results {
+						if phi, isPhi := r.(*ssa.Phi); isPhi && phi.Block() == b {
+							rs = append(rs, f.val(phi.Edges[i]))
+						} else {
+							rs = append(rs, f.val(r))
+						}
+					}
+					f.rets = append(f.rets, retRec{path: ep, st: f.outSt[p], results: rs, pos: ret.Pos()})
+				}
+				continue
+			}
 			var rs []T
 			for _, r := range ret.Results {
 				rs = append(rs, f.val(r))
@@ -288,4 +308,23 @@ func (p *Program) verifyLemma(name string) (enc *Enc, err error) {
 	body := tr.boolExpr(lm.Body)
 	enc.obls = append(enc.obls, &Obl{Name: "lemma:" + name, Class: "lemma", Func: "lemma " + name, Path: True, Cond: body, Pos: fmt.Sprintf("contracts:%d", lm.Line)})
 	return enc, nil
+}
+
+// trivialReturnBlock: only phis / debug references before the return.
+func (f *Frame) trivialReturnBlock(b *ssa.BasicBlock) bool {
+	for _, in := range b.Instrs[:len(b.Instrs)-1] {
+		switch in.(type) {
+		case *ssa.Phi, *ssa.DebugRef:
+		default:
+			return false
+		}
+	}
+	seen := map[*ssa.BasicBlock]bool{}
+	for _, p := range b.Preds {
+		if seen[p] {
+			return false // duplicate predecessor edges: keep the merged form
+		}
+		seen[p] = true
+	}
+	return true
 }
